@@ -9,6 +9,12 @@ Local Arguments Z.leb : simpl never.
 Lemma list_eqb_refl {A} (e : A -> A -> bool) (He : forall x, e x x = true) l : list_eqb e l l = true.
 Proof. induction l as [|x l IH]; cbn; [reflexivity|]. now rewrite He, IH. Qed.
 
+Lemma kv_eqb_refl (m : kvlist) : kv_eqb m m = true.
+Proof.
+  unfold kv_eqb. induction m as [|[k v] m IH]; cbn [list_eqb]; [reflexivity|].
+  unfold pair_eqb at 1; cbn [fst snd]. now rewrite !beqb_refl, IH.
+Qed.
+
 Lemma pair_beqb_refl (p : bytes * bytes) : pair_eqb beqb beqb p p = true.
 Proof. unfold pair_eqb. now rewrite !beqb_refl. Qed.
 
@@ -21,6 +27,9 @@ Section Shape.
   Proof. induction ms as [|m ms IH]; cbn; [reflexivity | exact IH]. Qed.
 
   Lemma logs_keys ms : map log_key (map lf ms) = map (fun m => (lg_level m, lg_msg m)) ms.
+  Proof. rewrite map_map. apply map_ext. intro m. reflexivity. Qed.
+
+  Lemma logs_extras ms : map log_extras (map lf ms) = map (fun m => kv_sort (lg_extras m)) ms.
   Proof. rewrite map_map. apply map_ext. intro m. reflexivity. Qed.
 
   Lemma logs_reqid ms :
@@ -66,6 +75,7 @@ Proof.
   rewrite removelast_last, last_last. rewrite beqb_refl.
   unfold L at 1. rewrite logs_all_log.
   unfold L at 1. rewrite logs_keys, (list_eqb_refl _ pair_beqb_refl).
+  unfold L at 1. rewrite logs_extras, (list_eqb_refl _ kv_eqb_refl).
   rewrite forallb_app. unfold L at 1. rewrite logs_reqid.
   rewrite !count_app. unfold count at 1 3 5 7. unfold L. rewrite !logs_no_data, !logs_no_exc.
   cbn [andb length plus forallb].
